@@ -220,6 +220,14 @@ func main() {
 		*tier = "quick"
 	}
 	startWall := time.Now()
+	// From here on a run that cannot be completed says so in the evidence file.
+	if *replayF == "" && *selftest == 0 {
+		evidenceOnAbort = func(reason string) {
+			// No verdict, no evidence: the file of an earlier run must not be taken for
+			// this run's (the schema has no way of saying "nothing was evaluated").
+			os.Remove(filepath.Join(verifDir, "evidence", propID+".json"))
+		}
+	}
 
 	base := os.Getenv("VERIF_SCRATCH")
 	if base == "" {
@@ -267,17 +275,6 @@ func main() {
 		os.Exit(rc)
 	}
 
-	// From here on a run that cannot be completed says so in the evidence file.
-	evidenceOnAbort = func(reason string) {
-		ev := map[string]any{"property_id": propID, "tier": *tier, "seed": seed, "level": pc.Level, "wall_s": time.Since(startWall).Seconds(),
-			"coverage": map[string]any{"evaluations": 0, "distinct_nontrivial": 0, "rule": pc.Rule, "samples": []any{"this run did not complete: " + reason},
-				"components_real": pc.Real, "components_stub": pc.Stub},
-			"result": "not completed (exit status 2, no verdict): " + reason}
-		if js, err := json.MarshalIndent(ev, "", " "); err == nil {
-			os.MkdirAll(filepath.Join(verifDir, "evidence"), 0777)
-			os.WriteFile(filepath.Join(verifDir, "evidence", propID+".json"), js, 0666)
-		}
-	}
 	// Known findings for this property.
 	kfs := loadKnown(propID)
 	var windows []string
